@@ -275,11 +275,70 @@ def run_shard(shard, tier, acc):
                     acc.fail({'password': pw, 'history': hi}, '%r (history: %s): %s' % (pw, hist[0], msg), sig)
                 if idx % 4001 == si and hi == 1 and sections:
                     acc.sample({'password': pw, 'history': hist[0], 'sections': sections}, cap=2)
+        # E-hist over ONE detector object: trained, used, trained further, used again (histories 0, 1, 2 are cumulative).  What a parse returns depends
+        # on what the detector has been taught so far and on nothing the detector or the parser did before
+        # (two chains: one that is first used while untrained, one that is first used after stage 1 - a run that was not split once may stay unsplit
+        # without harm, a run that was split must stop being split once the whole has been seen often enough)
+        for first_use in (1, 0):
+            chain = MW(threshold=5, min_len=4, max_len=21)
+            taught = {}
+            for stage in (0, 1, 2):
+                for w, n in HISTORIES[stage][1].items():
+                    for _ in range(n - taught.get(w, 0)):
+                        chain.train(w)
+                    taught[w] = n
+                if stage < first_use:
+                    continue
+                hist = ('one detector object first used at stage %d, now after stage %d (%s)' % (first_use, stage, HISTORIES[stage][0]), dict(taught), False)
+                for idx, pw in enumerate(strings(tier)):
+                    if idx % ns != si or (idx // ns) % 2 != first_use:
+                        continue
+                    acc.evals += 1
+                    last[0] = last[1] = None
+                    with contextlib.redirect_stdout(sink):
+                        res, sections = check_password(pp, chain, hist, pw, last)
+                    sink.seek(0)
+                    sink.truncate()
+                    for clause, msg in res:
+                        acc.fail({'password': pw, 'history': 'chain', 'stage': stage, 'first_use': first_use}, '%r (history: %s): %s' % (pw, hist[0], msg), 'chain:' + clause)
     finally:
         pp.base_structure_creation = orig
 
 
+def replay_chain(case):
+    """The chain up to the stage of the case; at every earlier stage the same password is parsed as well (that is the history the finding depends on)."""
+    tree.use()
+    MW = tree.imp('lib_trainer.detection_rules.multiword_detector').MultiWordDetector
+    pp = tree.imp('lib_trainer.pcfg_password_parser')
+    orig = pp.base_structure_creation
+    last = [None, None]
+
+    def wrapped(section_list):
+        last[1] = [tuple(s) for s in section_list]
+        r = orig(section_list)
+        last[0] = r
+        return r
+    pp.base_structure_creation = wrapped
+    res = []
+    try:
+        chain = MW(threshold=5, min_len=4, max_len=21)
+        taught = {}
+        for stage in range(case['stage'] + 1):
+            for w, n in HISTORIES[stage][1].items():
+                for _ in range(n - taught.get(w, 0)):
+                    chain.train(w)
+                taught[w] = n
+            if stage < case.get('first_use', 0):
+                continue
+            res, sections = check_password(pp, chain, ('stage %d' % stage, dict(taught), False), case['password'], last)
+    finally:
+        pp.base_structure_creation = orig
+    return res[0][1] if res else None
+
+
 def replay(case):
+    if case.get('history') == 'chain':
+        return replay_chain(case)
     tree.use()
     MW = tree.imp('lib_trainer.detection_rules.multiword_detector').MultiWordDetector
     pp = tree.imp('lib_trainer.pcfg_password_parser')
